@@ -291,7 +291,9 @@ func c16TickLiveness(m *vk.M, desc string, s *c16Sys, tasks []c16Task) (held boo
 		d, _ := s.tks.offer()
 		delivered += d
 		if d == 0 {
-			if len(s.tks.live()) == 0 && c16Quiescent() {
+			// order matters: first "every library goroutine is a flusher parked in its select"
+			// (so each has registered its ticker), then "none of this executor's tickers is live"
+			if c16Quiescent() && len(s.tks.live()) == 0 {
 				break
 			}
 			runtime.Gosched()
@@ -302,7 +304,7 @@ func c16TickLiveness(m *vk.M, desc string, s *c16Sys, tasks []c16Task) (held boo
 		if s.executed(tasks) {
 			return true
 		}
-		quiet = (delivered >= 3 || len(s.tks.live()) == 0) && c16Quiescent()
+		quiet = c16Quiescent() && (delivered >= 3 || len(s.tks.live()) == 0)
 		return quiet
 	})
 	if s.executed(tasks) {
@@ -341,6 +343,7 @@ func c16RunIdle(m *vk.M, idx int, ic c16IdleCase) (class string, ok bool) {
 	desc := fmt.Sprintf("case=%d;%s", idx, vk.JSON(ic))
 	m.Current(desc)
 	s := c16New(ic.Cfg, nil)
+	v0 := m.ViolCount()
 	mk := func(sq int) c16Task {
 		t := c16Task{A: 0, S: sq}
 		if ic.Cfg.Kind == "chunk" {
@@ -368,7 +371,7 @@ func c16RunIdle(m *vk.M, idx int, ic c16IdleCase) (class string, ok bool) {
 		return hang("add")
 	}
 	if held, _ := c16TickLiveness(m, desc, s, []c16Task{mk(1)}); !held {
-		return "", true
+		return "", m.ViolCount() > v0 // a violation: next scenario; undecided: stop (goroutines of an earlier stall are in the way)
 	}
 	// a commanded batch makes the flusher skip one tick: take it out of the way
 	if ic.Cfg.N == 1 {
@@ -443,7 +446,7 @@ func c16RunIdle(m *vk.M, idx int, ic c16IdleCase) (class string, ok bool) {
 	}
 	// from here on nobody calls Flush/Wait: ticks alone (or the retiring flusher) must run t1
 	if held, _ := c16TickLiveness(m, desc, s, []c16Task{t1}); !held {
-		return "", true
+		return "", m.ViolCount() > v0 // a violation: next scenario; undecided: stop (goroutines of an earlier stall are in the way)
 	}
 	created, stopped := s.tks.counts()
 	trig := ""
